@@ -1,4 +1,4 @@
-import AbraProofs.Lemmas.SpanTree
+import AbraProofs.Lemmas.SpanTreeWF
 /- C35 — go-to-definition and hover agree with the compiler (partial).
 
    Theorems: the two AST searches behind `definition_at` / `type_at`
@@ -35,6 +35,21 @@ theorem C35_searchI_spec (t : ITree) (hn : NestedI t) (off id : Nat) (h : search
     Innermost off id t ∧ Cand off id t :=
   ⟨searchI_sound off id t hn h, Innermost.cand off id t (searchI_sound off id t hn h)⟩
 
+/-- Without any hypothesis on the tree (the spans the parser hands out are not always nested, see F6 in the
+    harness notes): the node returned is *reachable* at the offset — its own span and the spans of all nodes
+    above it contain the offset — and no node below it is; and the search answers exactly when some node is
+    reachable.  On a properly nested tree "reachable" is "its span contains the offset" (`reach_iff_cand`). -/
+theorem C35_searchI_spec_unconditional (t : ITree) (off : Nat) :
+    (∀ id, searchI off t = some id → InnermostR off id t ∧ Reach off id t) ∧
+    ((∃ id, searchI off t = some id) ↔ ∃ id, Reach off id t) := by
+  refine ⟨fun id h => ⟨searchI_sound_reach off id t h, InnermostR.reach off id t (searchI_sound_reach off id t h)⟩, ?_, ?_⟩
+  · rintro ⟨id, h⟩
+    exact ⟨id, InnermostR.reach off id t (searchI_sound_reach off id t h)⟩
+  · rintro ⟨id, h⟩
+    cases hs : searchI off t with
+    | some r => exact ⟨r, rfl⟩
+    | none => exact absurd h (searchI_none_reach off t hs id)
+
 /-- The same for a parsed file: `find_innermost_node_at_offset`. -/
 theorem C35_findInnermost_spec (file : Ast) (t : ITree) (hp : innerPlan file = some t) (hn : NestedI t)
     (off id : Nat) (h : findInnermost file off = some (some id)) : Innermost off id t ∧ Cand off id t := by
@@ -64,6 +79,19 @@ theorem C35_searchI_past_end (t : ITree) (hn : NestedI t) (n : Nat) (hb : ∀ of
   | none => rfl
   | some id => exact absurd (hb off id (C35_searchI_spec t hn off id hs).2) (by omega)
 
+/-- The hypotheses are decidable per tree: when the executable check `wfB` (reported by the driver for
+    every tree of the correspondence) accepts a search tree, the identifier search on it is exactly
+    "the identifier whose span contains the offset, else nothing". -/
+theorem C35_search_spec_checked (t : STree) (h : wfB t = true) (off : Nat) :
+    (∀ id, search off t = some id ↔ Hit off id t) ∧ (search off t = none ↔ ∀ id, ¬ Hit off id t) := by
+  obtain ⟨hn, hc, hu⟩ := wfB_sound t h
+  exact search_spec t hn hc hu off
+
+/-- likewise for the innermost-node search and the executable check `nestedIB` -/
+theorem C35_searchI_spec_checked (t : ITree) (h : nestedIB t = true) (off id : Nat)
+    (hs : searchI off t = some id) : Innermost off id t ∧ Cand off id t :=
+  C35_searchI_spec t (nestedIB_sound t h) off id hs
+
 /-! ### non-vacuity -/
 
 /-- `f(a, b)` inside an item `[0, 10)`: identifiers `f`=[0,1) id 1, `a`=[2,3) id 2, `b`=[5,6) id 3 -/
@@ -87,6 +115,8 @@ example : Nested exS ∧ CutOK exS ∧ Unique exS := by
   · intro off a b ha hb
     rw [exS_hit] at ha hb
     omega
+
+example : wfB exS = true := by decide
 
 example : search 5 exS = some 3 ∧ search 4 exS = none ∧ search 12 exS = none := by decide
 
@@ -112,6 +142,8 @@ example : NestedI exI := by
     rcases h with (⟨_, h⟩ | ⟨_, _, _⟩ | ⟨_, _, _⟩ | h) | h <;> simp_all <;> omega
   · intro off id h
     rcases h with ⟨_, _, _⟩ | ⟨_, _, _⟩ | h <;> simp_all <;> omega
+
+example : nestedIB exI = true := by decide
 
 example : searchI 0 exI = some 7 ∧ searchI 2 exI = some 9 ∧ searchI 5 exI = none := by decide
 
